@@ -24,6 +24,10 @@ type TargetSpec struct {
 	// (a target that is restarting, a stale keep-alive connection)
 	FailFirst int
 	served    int
+	// Pause, when non-nil: the body stops being delivered at wire offset PauseAt until the channel is
+	// closed (or the request context ends): the scrape is in flight in the middle of its body
+	Pause   chan struct{}
+	PauseAt int
 	// Hold, when non-nil, parks the request until the channel is closed (or the
 	// request context ends): the scrape is "in flight" while the simulation does
 	// something else.
@@ -72,6 +76,7 @@ func (t *Targets) Set(host string, s *TargetSpec) {
 }
 
 var ErrConnect = errors.New("dial tcp: connection refused (simulated target)")
+
 // ErrBroken is what net/http reports when a connection breaks off in the middle of a body
 var ErrBroken = fmt.Errorf("simulated target: body broke off: %w", io.ErrUnexpectedEOF)
 
@@ -83,9 +88,19 @@ type bodyReader struct {
 	breakAt int // -1 = never
 	stall   <-chan struct{}
 	stallE  func() error
+	pause   <-chan struct{}
+	pauseAt int
+	ctxDone <-chan struct{}
 }
 
 func (b *bodyReader) Read(p []byte) (int, error) {
+	if b.pause != nil && b.off >= b.pauseAt {
+		select {
+		case <-b.pause:
+		case <-b.ctxDone:
+		}
+		b.pause = nil
+	}
 	if b.stall != nil && b.off >= b.breakAt {
 		<-b.stall
 		return 0, b.stallE()
@@ -198,6 +213,12 @@ func (t *Targets) RoundTrip(req *http.Request) (*http.Response, error) {
 		hdr.Set("Content-Encoding", "gzip")
 	}
 	br := &bodyReader{data: wire, chunks: spec.Chunks, breakAt: -1}
+	if spec.Pause != nil {
+		br.pause, br.pauseAt, br.ctxDone = spec.Pause, spec.PauseAt, req.Context().Done()
+		if len(br.chunks) == 0 {
+			br.chunks = []int{64} // small reads, so that the pause offset is really reached mid-body
+		}
+	}
 	switch fail {
 	case "break":
 		br.breakAt = spec.FailOffset
